@@ -68,9 +68,10 @@ func StoresTo(addr ssa.Value) []*ssa.Store {
 	return out
 }
 
-// Resolve looks through single-store spill cells: a load *alloc where alloc
-// has exactly one store yields the stored value; a load of a FreeVar cell is
-// resolved through the enclosing MakeClosure binding when unique.
+// Resolve looks through spill cells: a load *cell yields the stored value
+// when the reaching store is unique (single store, or the last of several
+// stores that all precede the load / the creation of the closure containing
+// the load, with no other store able to reach it in between).
 func Resolve(v ssa.Value) ssa.Value {
 	for i := 0; i < 20; i++ {
 		v = Strip(v)
@@ -78,30 +79,116 @@ func Resolve(v ssa.Value) ssa.Value {
 		if !ok || u.Op != token.MUL {
 			return v
 		}
-		switch a := u.X.(type) {
-		case *ssa.Alloc:
-			st := StoresTo(a)
-			if len(st) == 1 {
-				v = st[0].Val
-				continue
-			}
-			return v
-		case *ssa.FreeVar:
-			if b := Binding(a); b != nil {
-				if al, ok := b.(*ssa.Alloc); ok {
-					st := StoresTo(al)
-					if len(st) == 1 {
-						v = st[0].Val
-						continue
-					}
-				}
-			}
-			return v
-		default:
-			return v
+		if nv, ok := cellLoad(u); ok {
+			v = nv
+			continue
 		}
+		return v
 	}
 	return v
+}
+
+// cellLoad resolves a load from an Alloc cell (directly or through FreeVar
+// captures) to the value of its unique reaching store.
+func cellLoad(u *ssa.UnOp) (ssa.Value, bool) {
+	var alloc *ssa.Alloc
+	var site ssa.Instruction = u
+	switch a := u.X.(type) {
+	case *ssa.Alloc:
+		alloc = a
+	case *ssa.FreeVar:
+		// walk up the closure chain to the function owning the cell
+		var cur ssa.Value = a
+		fn := u.Parent()
+		for d := 0; d < 8; d++ {
+			fv, isFV := cur.(*ssa.FreeVar)
+			if !isFV {
+				break
+			}
+			mc := uniqueMakeClosure(fn)
+			if mc == nil {
+				return nil, false
+			}
+			idx := -1
+			for i, f := range fn.FreeVars {
+				if f == fv {
+					idx = i
+				}
+			}
+			if idx < 0 {
+				return nil, false
+			}
+			cur = mc.Bindings[idx]
+			site = mc
+			fn = fn.Parent()
+		}
+		al, ok := cur.(*ssa.Alloc)
+		if !ok {
+			return nil, false
+		}
+		alloc = al
+	default:
+		return nil, false
+	}
+	stores := StoresTo(alloc)
+	if len(stores) == 0 {
+		return nil, false
+	}
+	if len(stores) == 1 {
+		return stores[0].Val, true
+	}
+	inClosure := site != ssa.Instruction(u)
+	owner := alloc.Parent()
+	var best *ssa.Store
+	for _, st := range stores {
+		if st.Parent() != owner {
+			return nil, false // stored from inside a closure: timing unknown
+		}
+		if site.Parent() != owner {
+			return nil, false
+		}
+		if Dominates(st, site) {
+			if best == nil || Dominates(best, st) {
+				best = st
+			}
+		} else if inClosure {
+			return nil, false // a store that may happen after the closure was created
+		}
+	}
+	if best == nil {
+		return nil, false
+	}
+	for _, st := range stores {
+		if st == best {
+			continue
+		}
+		isSite := func(in ssa.Instruction) bool { return in == site }
+		isBest := func(in ssa.Instruction) bool { return in == ssa.Instruction(best) }
+		if _, reach := ReachesWithout(st, isSite, isBest, nil); reach {
+			return nil, false
+		}
+	}
+	return best.Val, true
+}
+
+func uniqueMakeClosure(fn *ssa.Function) *ssa.MakeClosure {
+	if fn.Parent() == nil {
+		return nil
+	}
+	var site *ssa.MakeClosure
+	n := 0
+	for _, b := range fn.Parent().Blocks {
+		for _, in := range b.Instrs {
+			if mc, ok := in.(*ssa.MakeClosure); ok && mc.Fn == fn {
+				site = mc
+				n++
+			}
+		}
+	}
+	if n != 1 {
+		return nil
+	}
+	return site
 }
 
 // Binding returns the value bound to free variable fv at the (unique)
@@ -586,4 +673,141 @@ func FuncName(fn *ssa.Function) string {
 	s = strings.ReplaceAll(s, "cuelabs.dev/go/oci/ociregistry/", "")
 	s = strings.ReplaceAll(s, "cuelabs.dev/go/oci/", "")
 	return s
+}
+
+// ---------------------------------------------------------------- E2 disjunctive path facts
+
+// DNF is a bounded set of token sets: each element describes the facts known
+// along one class of paths. A query holds at a point iff it holds in every
+// disjunct that reaches the point.
+type DNF []Tokens
+
+func (t Tokens) key() string {
+	ks := make([]string, 0, len(t))
+	for k := range t {
+		ks = append(ks, k)
+	}
+	sortStrings(ks)
+	return strings.Join(ks, "\x00")
+}
+
+func sortStrings(a []string) {
+	for i := 1; i < len(a); i++ {
+		for j := i; j > 0 && a[j] < a[j-1]; j-- {
+			a[j], a[j-1] = a[j-1], a[j]
+		}
+	}
+}
+
+const maxDisjuncts = 32
+
+func (d DNF) add(t Tokens) (DNF, bool) {
+	k := t.key()
+	for _, x := range d {
+		if x.key() == k {
+			return d, false
+		}
+	}
+	d = append(d, t)
+	if len(d) > maxDisjuncts {
+		// collapse to the intersection: loses facts, never invents them
+		inter := d[0].clone()
+		for _, x := range d[1:] {
+			for k := range inter {
+				if !x[k] {
+					delete(inter, k)
+				}
+			}
+		}
+		return DNF{inter}, true
+	}
+	return d, true
+}
+
+// PathFlow runs the disjunctive forward analysis over fn.
+func PathFlow(fn *ssa.Function, ff FlowFuncs) map[*ssa.BasicBlock]DNF {
+	in := map[*ssa.BasicBlock]DNF{}
+	if len(fn.Blocks) == 0 {
+		return in
+	}
+	in[fn.Blocks[0]] = DNF{Tokens{}}
+	work := []*ssa.BasicBlock{fn.Blocks[0]}
+	inWork := map[*ssa.BasicBlock]bool{fn.Blocks[0]: true}
+	for iter := 0; len(work) > 0 && iter < 200000; iter++ {
+		b := work[0]
+		work = work[1:]
+		inWork[b] = false
+		for _, d0 := range in[b] {
+			t := d0.clone()
+			for _, ins := range b.Instrs {
+				if ff.Instr != nil {
+					ff.Instr(ins, t)
+				}
+			}
+			for idx, s := range b.Succs {
+				te := t.clone()
+				if ff.Edge != nil && !ff.Edge(b, idx, te) {
+					continue
+				}
+				nd, changed := in[s].add(te)
+				in[s] = nd
+				if changed && !inWork[s] {
+					inWork[s] = true
+					work = append(work, s)
+				}
+			}
+		}
+	}
+	return in
+}
+
+// AllAt reports whether pred holds in every disjunct just before instruction
+// at (false if the point is unreachable in the analysis).
+func AllAt(ff FlowFuncs, flow map[*ssa.BasicBlock]DNF, at ssa.Instruction, pred func(Tokens) bool) bool {
+	ds, ok := flow[at.Block()]
+	if !ok || len(ds) == 0 {
+		return false
+	}
+	for _, d0 := range ds {
+		t := d0.clone()
+		for _, ins := range at.Block().Instrs {
+			if ins == at {
+				break
+			}
+			if ff.Instr != nil {
+				ff.Instr(ins, t)
+			}
+		}
+		if !pred(t) {
+			return false
+		}
+	}
+	return true
+}
+
+// CondsAtDeep is CondsAt plus, for instructions inside a function literal,
+// the conditions that held where the (unique) closure was created: SSA
+// values are immutable, so a condition on them established at creation time
+// still holds when the literal runs.
+func CondsAtDeep(b *ssa.BasicBlock) []Cond {
+	out := CondsAt(b)
+	fn := b.Parent()
+	for d := 0; fn.Parent() != nil && d < 6; d++ {
+		var site *ssa.MakeClosure
+		n := 0
+		for _, pb := range fn.Parent().Blocks {
+			for _, in := range pb.Instrs {
+				if mc, ok := in.(*ssa.MakeClosure); ok && mc.Fn == fn {
+					site = mc
+					n++
+				}
+			}
+		}
+		if n != 1 {
+			break
+		}
+		out = append(out, CondsAt(site.Block())...)
+		fn = fn.Parent()
+	}
+	return out
 }
